@@ -39,7 +39,7 @@ Delta == RSub(AX[Len(layers) + 1].v[1], AR[Len(layers) + 1].v[1])
 \* in a backward state m is the multiplier of layer k's input (= AX[k])
 SumToDeltaInv == (pc \in {"bwd", "done"} /\ k <= Len(layers)) => SumToDelta(m, AX[k], AR[k], Delta)
 AffineClosedForm == (pc = "done" /\ wv[3] = "none") =>
-    LET H == Project(m.v, ref, 2) IN
+    LET H == Project(m.v, OneHot(ref, 2).v, 2) IN
     \A p \in 1..Len2 :
         H[x[p] + 1][p] = RSum([c \in 1..2 |->
             RMul(RInt(wv[2] * wv[1][(c - 1) * Len2 + p]),
